@@ -79,6 +79,21 @@ def py_value(attr, v):
     return Opaque()
 
 
+OTHER_KINDS = ['int', 'float', 'str', 'empty-str', 'bytes', 'bool', 'none', 'list', 'empty-list', 'list-of-dicts', 'set',
+               'frozenset', 'tuple0', 'tuple1', 'tuple2', 'tuple3', 'tuple-of-dicts', 'tuple-name-actions', 'object',
+               'callable', 'type']
+
+
+def other_value(kind):
+    """a value that is neither a dict, a Task nor a generator (what a creator wrongly returns / yields)"""
+    act = {'name': 'n', 'actions': [ok_callable]}
+    return {'int': 42, 'float': 1.5, 'str': 'a string', 'empty-str': '', 'bytes': b'b', 'bool': True, 'none': None,
+            'list': [1, 2], 'empty-list': [], 'list-of-dicts': [dict(act)], 'set': {1, 2}, 'frozenset': frozenset([1]),
+            'tuple0': (), 'tuple1': (1,), 'tuple2': (1, 2), 'tuple3': ('a', 'b', 'c'),
+            'tuple-of-dicts': (dict(act), dict(act, name='m')), 'tuple-name-actions': ('name', ['cmd']),
+            'object': Opaque(), 'callable': ok_callable, 'type': dict}.get(kind, 42)
+
+
 def py_dict(d):
     out = {}
     for attr, v in d:
@@ -112,7 +127,7 @@ def _gen_from(doit_task, items):
             elif k == 'nested':
                 yield _gen_from(doit_task, it['items'])
             else:
-                yield 42
+                yield other_value(it.get('py', 'int'))
     return gen()
 
 
@@ -126,7 +141,8 @@ def _builder(doit_task, result):
         return lambda: py_task(doit_task, result['t'])
     if k == 'none':
         return lambda: None
-    return lambda: 42
+    kind = result.get('py', 'int')
+    return lambda: other_value(kind if kind != 'none' else 'int')
 
 
 def _function_at(line, builder):
@@ -527,6 +543,14 @@ def monitor(case, api, cmds, table, cli=None):
             if subs and not is_subsequence(subs, g['task_dep']):
                 reasons.append('accepted:group-misses-subtask-or-order')
                 break
+        # the same attachment must already hold on what load_tasks returns (commands that build no TaskControl)
+        if api['load']['out'] == 'tasks':
+            ltasks = api['load']['tasks']
+            for g in ltasks:
+                subs = [t['name'] for t in ltasks if t['subtask_of'] == g['name'] and t['name'] not in handmade]
+                if subs and not is_subsequence(subs, g['task_dep']):
+                    reasons.append('accepted:group-misses-subtask-or-order@load_tasks')
+                    break
         for n in names:
             if n in cmds:
                 reasons.append('accepted:command-name')
